@@ -61,7 +61,8 @@ Actions(s) ==
      \cup (IF "Duplicate" \in Ops /\ Len(s.root) < NM + 1 THEN {[A0 EXCEPT !.op = "Duplicate", !.m = m] : m \in 1..Len(s.root)} ELSE {})
      \cup (IF "SetAttr" \in Ops THEN UNION {{[A0 EXCEPT !.op = "SetAttr", !.p = p, !.an = av[1], !.val = av[2]] : av \in AttrValues} : p \in N} ELSE {})
      \cup (IF "RemoveAttr" \in Ops THEN {[A0 EXCEPT !.op = "RemoveAttr", !.p = p, !.an = an] : p \in N, an \in {av[1] : av \in AttrValues}} ELSE {})
-     \cup (IF "Load" \in Ops THEN {[A0 EXCEPT !.op = "Load", !.m = 1, !.k = d, !.name = d, !.ver = md] : d \in DocNames, md \in {"", "lenient"}} ELSE {})
+     \cup (IF "Load" \in Ops THEN {[A0 EXCEPT !.op = "Load", !.m = 1, !.k = d, !.name = d] : d \in DocNames}
+                                   \cup {[A0 EXCEPT !.op = "Load", !.m = 1, !.k = d, !.name = d, !.ver = "lenient"] : d \in DocNames \cap {"pv", "pe"}} ELSE {})
      \cup (IF "SetComment" \in Ops THEN {[A0 EXCEPT !.op = "SetComment", !.p = p, !.name = cm] : p \in N, cm \in {"", "c--d"}} ELSE {})
 
 Red(s) == [n |-> s.n, f |-> s.f,
